@@ -121,6 +121,19 @@ impl<C: Config> Engine<C> {
     pub(in crate::engine::computation_graph) async fn acquire_active_input_session_guard(
         &self,
     ) -> (WriteTransaction<C>, ActiveInputSessionGuard) {
+        // the exclusive phase lock must be held before the timestamp is
+        // bumped (and before the session's write batch takes its place in the
+        // commit order); otherwise a `tracked()` handed out in between would
+        // verify queries at the new timestamp against the old inputs.
+        let guard = self
+            .computation_graph
+            .database
+            .sync
+            .phase_mutex
+            .clone()
+            .write_owned()
+            .await;
+
         let mut write_buffer = self
             .computation_graph
             .database
@@ -141,15 +154,6 @@ impl<C: Config> Engine<C> {
             .sync
             .timestamp_map
             .insert((), Timestamp(new_timestamp), &mut write_buffer)
-            .await;
-
-        let guard = self
-            .computation_graph
-            .database
-            .sync
-            .phase_mutex
-            .clone()
-            .write_owned()
             .await;
 
         (write_buffer, ActiveInputSessionGuard(Arc::new(guard)))
